@@ -147,6 +147,7 @@ def _check_main(ctx, rep: Report):
             hit = None
             if isinstance(n, (ast.Assign, ast.Delete, ast.AugAssign)):
                 tg = n.targets if not isinstance(n, ast.AugAssign) else [n.target]
+                tg = [e_ for x_ in tg for e_ in (x_.elts if isinstance(x_, (ast.Tuple, ast.List)) else [x_])]
                 for t in tg:
                     if ast.unparse(t).startswith("self._dict"):
                         hit = ast.unparse(t)
